@@ -14,7 +14,23 @@ package elasticquota
 //     top-level quota declare the same max dimensions; min keys are a subset of max keys and of the
 //     parent's min keys; 0 <= min <= max; the children's mins sum to at most the parent's min;
 //     parents exist (and are parent groups) before their children; pods live in leaf groups only;
-//     the tree topology never changes (no re-parenting, no deletion: those belong to C01/C15);
+//     no re-parenting (C01/C15). A leaf quota may be created LATE (after pods labelled with its name
+//     have already been admitted through the default group) and may be deleted and re-created; the
+//     webhook only lets a quota go that has no child quota and no pod labelled with it, so that is
+//     the only deletion generated (the scheduler side does not move pods of a deleted quota anyway:
+//     Plugin.migratePods has no caller);
+//   * where a pod is accounted (the monitor's own rule, from the API documentation, not from the
+//     manager's cache): in the quota its quota-name label names if that quota exists when the pod's
+//     add event arrives (there is no namespace quota in these histories), otherwise in the default
+//     group; a pod sitting in the default group whose label names a quota that exists meanwhile moves
+//     to that quota, together with its assigned state, when Plugin.migrateDefaultQuotaGroupsPod (the
+//     body of the plugin's periodic goroutine, called directly here) runs. Between the late creation
+//     and that migration run no event and no scheduling attempt touches the pods waiting to be moved
+//     (the real window is one second; what happens to such pods inside it is not C03's subject);
+//   * creating a quota over pods that are already running is, for the "max not lowered" clause, a
+//     lowering of that quota's (and, for the usage it brings along, its ancestors') max from
+//     "unlimited": usage above max found right after the migration is exempt until it is seen within
+//     max again;
 //   * a pod's add event (unassigned) is delivered before its first scheduling attempt; Reserve is
 //     called only after a successful PreFilter of the same pod in the same cycle; between PreFilter
 //     and Reserve only informer-side events can happen (other pod deleted, quota updated, node
@@ -33,13 +49,15 @@ package elasticquota
 //   rejected  => at least one of exactly these comparisons fails (nothing else may reject: no hook
 //                plugins, default gates).
 // Usage is additionally recomputed from the monitor's own pod list (shadow model) after every
-// operation, so that an accounting slip cannot hide an over-admission, and used <= max is checked for
+// operation (also the groups' own request, the input of the runtime quota, is recounted from the live
+// pods), so that an accounting slip cannot hide an over-admission, and used <= max is checked for
 // every group in scope (leaf groups always, parent groups when parent checking is on) whose max was
 // not lowered since usage was last within it.
 //
 // Signatures: C03/admit/over-own-limit, C03/admit/over-ancestor-limit, C03/admit/non-preemptible-over-min,
 // C03/admit/already-over-limit-in-unrequested-dimension/{own,ancestor,np}, C03/reject/unjustified,
-// C03/invariant/used-above-max, C03/used/shadow-mismatch[-nonpreemptible]; the default group has its
+// C03/invariant/used-above-max, C03/used/shadow-mismatch[-nonpreemptible], C03/request/shadow-mismatch;
+// the default group has its
 // own C03/admit/over-own-limit/default-quota and C03/invariant/used-above-max/default-quota (reported
 // without ending the case).
 
@@ -214,6 +232,9 @@ type c03Quota struct {
 	weight       c03Vec // nil: no annotation (defaults to max)
 	children     []string
 	lowered      map[corev1.ResourceName]bool // max lowered in this dimension and used not seen within max since
+	exists       bool                         // the quota object currently exists (late quotas start absent)
+	everLate     bool                         // was created after the start of the history at least once
+	deletions    int
 	rv           int
 	obj          *v1alpha1.ElasticQuota
 }
@@ -259,6 +280,8 @@ type c03World struct {
 	nextNode  int
 	memScale  int64
 	defSmall  bool
+	lateMode  bool     // history with late-created / deleted / re-created quotas
+	absent    []string // names of planned or deleted leaf quotas that do not exist right now
 	// the default group's over-max state is reported once per case
 	defReported bool
 	accepted    int
@@ -305,7 +328,7 @@ func (w *c03World) genTree() {
 	}
 	var all []*c03Quota
 	newQ := func(parent *c03Quota) *c03Quota {
-		q := &c03Quota{name: fmt.Sprintf("q%d", len(all)), allowLent: !r.Pct(25), lowered: map[corev1.ResourceName]bool{}, max: c03Vec{}, min: c03Vec{}}
+		q := &c03Quota{name: fmt.Sprintf("q%d", len(all)), exists: true, allowLent: !r.Pct(25), lowered: map[corev1.ResourceName]bool{}, max: c03Vec{}, min: c03Vec{}}
 		if parent == nil {
 			q.parent = extension.RootQuotaName
 			q.depth = 1
@@ -456,6 +479,7 @@ type c03View struct {
 	min    corev1.ResourceList
 	max    corev1.ResourceList
 	limit  corev1.ResourceList
+	selfRq corev1.ResourceList
 }
 
 // view reads one group. The runtime quota is refreshed (a state-changing public call) only when
@@ -473,7 +497,7 @@ func (w *c03World) view(q *c03Quota, refresh bool) c03View {
 	if s.ParentName != q.parent {
 		w.c.Harness("group %s: plugin reports parent %q, harness built %q", q.name, s.ParentName, q.parent)
 	}
-	v := c03View{q: q, used: s.Used, npUsed: s.NonPreemptibleUsed, min: s.Min, max: s.Max}
+	v := c03View{q: q, used: s.Used, npUsed: s.NonPreemptibleUsed, min: s.Min, max: s.Max, selfRq: s.SelfRequest}
 	switch {
 	case !w.runtimeOn:
 		v.limit = s.Max
@@ -524,10 +548,28 @@ func (w *c03World) shadow() (used, np map[string]c03Vec) {
 func (w *c03World) checkAll(where string) {
 	c := w.c
 	used, np := w.shadow()
+	selfReq := map[string]c03Vec{}
+	for _, p := range w.pods {
+		if p.state == c03Gone {
+			continue
+		}
+		if selfReq[p.quota] == nil {
+			selfReq[p.quota] = c03Vec{}
+		}
+		for _, d := range w.quotas[p.quota].dims {
+			selfReq[p.quota][d] += p.req[d]
+		}
+	}
 	for _, n := range w.order {
 		q := w.quotas[n]
 		v := w.view(q, false)
 		for _, d := range q.dims {
+			if !q.isParent {
+				rr, _ := c03Get(v.selfRq, d)
+				if rr != selfReq[n][d] {
+					c.Fail("C03/request/shadow-mismatch", "%s: group %s reports own request %s=%d, its live pods request %d (reported %s)", where, n, c03Short(d), rr, selfReq[n][d], c03RLStr(v.selfRq))
+				}
+			}
 			ru, _ := c03Get(v.used, d)
 			if ru != used[n][d] {
 				c.Fail("C03/used/shadow-mismatch", "%s: group %s reports used %s=%d, the admitted and not released pods of its subtree request %d (reported used %s)", where, n, c03Short(d), ru, used[n][d], c03RLStr(v.used))
@@ -645,7 +687,10 @@ func (w *c03World) headroom(leaf *c03Quota, np bool, useMax bool) c03Vec {
 	return h
 }
 
-func (w *c03World) newPod() *c03Pod {
+func (w *c03World) newPod() *c03Pod { return w.newPodFor("") }
+
+// newPodFor adds a pod; forced != "" names the (existing) quota it is labelled with.
+func (w *c03World) newPodFor(forced string) *c03Pod {
 	r := w.r
 	p := &c03Pod{name: fmt.Sprintf("p%d", w.nextPod), req: c03Vec{}, state: c03Pending}
 	w.nextPod++
@@ -653,7 +698,16 @@ func (w *c03World) newPod() *c03Pod {
 	if w.defSmall {
 		defPct = 25
 	}
-	if r.Pct(defPct) {
+	var future *c03Quota // the absent quota the label names, if any
+	if forced != "" {
+		p.quota, p.label = forced, forced
+	} else if len(w.absent) > 0 && r.Pct(40) {
+		// the quota the label names does not exist now: the pod is accounted in the default group
+		p.label = kit.Pick(r, w.absent)
+		p.quota = extension.DefaultQuotaName
+		future = w.quotas[p.label]
+		w.c.Count("pods_labelled_with_absent_quota", 1)
+	} else if r.Pct(defPct) {
 		p.quota = extension.DefaultQuotaName
 		p.label = extension.DefaultQuotaName
 		if r.Bool() {
@@ -697,10 +751,27 @@ func (w *c03World) newPod() *c03Pod {
 			p.req[d] = v
 		}
 	}
+	if future != nil {
+		// sized against the quota it will be moved to, so that what the migration brings along lands
+		// below, at and above that quota's max
+		for _, d := range future.dims {
+			if c03Has(leaf.dims, d) && w.defSmall && r.Pct(50) {
+				continue // keep the request aimed at the default group's headroom
+			}
+			switch r.Intn(4) {
+			case 0:
+				p.req[d] = future.max[d] / int64(r.Range(1, 4))
+			case 1:
+				p.req[d] = future.max[d]/int64(r.Range(1, 3)) + 1
+			default:
+				p.req[d] = w.genAmount(d) / int64(r.Range(2, 8))
+			}
+		}
+	}
 	if r.Pct(25) {
 		// a dimension the group does not declare must not count
 		for _, d := range []corev1.ResourceName{corev1.ResourceMemory, c03GPU, c03Undeclared} {
-			if !c03Has(leaf.dims, d) && r.Bool() {
+			if !c03Has(leaf.dims, d) && (future == nil || !c03Has(future.dims, d)) && r.Bool() {
 				p.req[d] = w.genAmount(d)
 			}
 		}
@@ -935,13 +1006,24 @@ func (w *c03World) attempt(p *c03Pod) {
 			w.boundary++
 			c.Count("boundary_decisions", 1)
 		}
+		if leaf.everLate {
+			c.Count("attempts_after_migration", 1)
+			if admitted {
+				c.Count("accepted_after_migration", 1)
+			} else {
+				c.Count("rejected_after_migration", 1)
+			}
+			if exact || oneOver {
+				c.Count("boundary_decisions_after_migration", 1)
+			}
+		}
 		bclass := "far"
 		if exact {
 			bclass = "exact"
 		} else if oneOver {
 			bclass = "one-over"
 		}
-		c.Seen(w.runtimeOn, w.parentOn, leaf.depth, len(leaf.dims), leaf.isDefault, p.np, admitted, reason, bclass, scarce, p.attempts > 1)
+		c.Seen(w.runtimeOn, w.parentOn, leaf.depth, len(leaf.dims), leaf.isDefault, leaf.everLate, p.np, admitted, reason, bclass, scarce, p.attempts > 1)
 	}
 	if !admitted {
 		if r.Pct(20) {
@@ -996,6 +1078,131 @@ func (w *c03World) unreserve(p *c03Pod, state fwktype.CycleState) {
 
 // ---------------------------------------------------------------------------------------------
 // quota and node changes
+
+func c03Remove(xs []string, x string) []string {
+	var out []string
+	for _, y := range xs {
+		if y != x {
+			out = append(out, y)
+		}
+	}
+	return out
+}
+
+func (w *c03World) labelled(name string) (live, assigned int) {
+	for _, p := range w.pods {
+		if p.state != c03Gone && p.label == name {
+			live++
+			if p.state == c03Reserved || p.state == c03Bound {
+				assigned++
+			}
+		}
+	}
+	return
+}
+
+// lateCreate creates (or re-creates) a quota whose name pods may already carry, through the plugin's
+// quota add handler, and then runs the plugin's own migration of the default group's pods.
+func (w *c03World) lateCreate(q *c03Quota) {
+	c, r := w.c, w.r
+	if q.deletions > 0 && r.Pct(50) {
+		// re-created with other numbers (same dimensions, min untouched: its room under the parent is kept)
+		for _, d := range q.dims {
+			nv := w.genAmount(d)
+			if c03Has(q.minDims, d) {
+				nv = c03Max64(nv, q.min[d])
+			}
+			q.max[d] = nv
+		}
+	}
+	live, assigned := w.labelled(q.name)
+	q.exists, q.everLate = true, true
+	q.obj = w.quotaObj(q)
+	w.pl.OnQuotaAdd(q.obj)
+	// parents precede children, the default group stays last
+	w.order = append(w.order[:len(w.order)-1], q.name, extension.DefaultQuotaName)
+	w.leaves = append(w.leaves, q.name)
+	w.absent = c03Remove(w.absent, q.name)
+	c.Op("quota-add-late %s (deleted %d times before; %d live pods carry its name, %d of them assigned)", w.quotaDesc(q), q.deletions, live, assigned)
+	if q.deletions > 0 {
+		c.Count("quota_recreated", 1)
+	} else {
+		c.Count("late_quota_created", 1)
+	}
+	if live > 0 {
+		c.Count("late_quota_created_over_pods", 1)
+	}
+	w.checkAll("after late creation of " + q.name + " (pods not migrated yet)")
+	// things that may happen before the migration goroutine's next run, none touching a pod that waits
+	// to be moved
+	if r.Pct(35) {
+		switch r.Intn(3) {
+		case 0:
+			w.quotaUpdate()
+		case 1:
+			w.nodeChange()
+		default:
+			if len(w.live()) < 16 {
+				np := w.newPodFor(q.name) // arrives after the quota: accounted there directly
+				c.Count("pod_added_between_late_creation_and_migration", 1)
+				_ = np
+			}
+		}
+		w.checkAll("between late creation of " + q.name + " and migration")
+	}
+	// usage that arrives by migration was never admitted against this quota or its ancestors
+	for _, g := range w.chain(q.name) {
+		for _, d := range g.dims {
+			g.lowered[d] = true
+		}
+	}
+	w.pl.migrateDefaultQuotaGroupsPod()
+	movedA, movedP := 0, 0
+	for _, p := range w.pods {
+		if p.state == c03Gone || p.quota != extension.DefaultQuotaName {
+			continue
+		}
+		if t := w.quotas[p.label]; t != nil && t.exists && !t.isDefault {
+			p.quota = p.label
+			if p.state == c03Pending {
+				movedP++
+			} else {
+				movedA++
+			}
+		}
+	}
+	c.Op("migrate-default-group-pods: %d assigned and %d unassigned pods now belong to their named quota", movedA, movedP)
+	c.Count("migration_runs", 1)
+	c.Count("pods_migrated_from_default_assigned", movedA)
+	c.Count("pods_migrated_from_default_not_assigned", movedP)
+	w.checkAll("after migration into " + q.name)
+}
+
+// deleteQuota removes a leaf quota the webhook would let go: no child quota, no pod labelled with it.
+func (w *c03World) deleteQuota() bool {
+	c, r := w.c, w.r
+	var cands []*c03Quota
+	for _, n := range w.leaves {
+		q := w.quotas[n]
+		if live, _ := w.labelled(n); live == 0 && len(w.leaves) >= 2 {
+			cands = append(cands, q)
+		}
+	}
+	if len(cands) == 0 {
+		return false
+	}
+	q := kit.Pick(r, cands)
+	w.pl.OnQuotaDelete(q.obj)
+	q.exists = false
+	q.deletions++
+	w.order = c03Remove(w.order, q.name)
+	w.leaves = c03Remove(w.leaves, q.name)
+	w.absent = append(w.absent, q.name)
+	c.Op("quota-delete %s", q.name)
+	c.Count("quota_deleted", 1)
+	w.checkAll("after deletion of quota " + q.name)
+	return true
+}
 
 func (w *c03World) quotaUpdate() {
 	c, r := w.c, w.r
@@ -1197,7 +1404,7 @@ func (s *c03Suit) newPlugin(t *testing.T, c *kit.Case, mut func(a *config.Elasti
 func TestVerifC03Admission(t *testing.T) {
 	s := &c03Suit{}
 	kit.Run(t, kit.Config{Property: "C03", Unit: "admission", Quick: 1600, Thorough: 48000,
-		Rule: "case k runs configuration k%4 of EnableRuntimeQuota x EnableCheckParentQuota on a fresh real Plugin: random webhook-valid quota tree (3-6 groups, depth<=3, per-subtree dimension sets, lent/non-lent, weights) plus the default group, 1-3 nodes sized 0.3x-3x of the top-level max sum; closed loop of 50-150 scheduling attempts (PreFilter -> Reserve -> sometimes Unreserve, retries of rejected pods) interleaved with pod deletions, bind echoes, stale updates, max raised/lowered (also exactly to usage and one below), min and weight changes, node add/remove/resize, events between check and reserve; requests drawn at headroom, headroom+1, headroom-1; distinct = (config, leaf depth, #dims, default group?, non-preemptible?, verdict, cited check, boundary class, limit<max?, retry?); non-trivial = case with an accepted and a rejected attempt and at least one decision within one unit of a limit"},
+		Rule: "case k runs configuration k%4 of EnableRuntimeQuota x EnableCheckParentQuota on a fresh real Plugin: random webhook-valid quota tree (3-6 groups, depth<=3, per-subtree dimension sets, lent/non-lent, weights) plus the default group, 1-3 nodes sized 0.3x-3x of the top-level max sum; closed loop of 50-150 scheduling attempts (PreFilter -> Reserve -> sometimes Unreserve, retries of rejected pods) interleaved with pod deletions, bind echoes, stale updates, (in 35% of the histories) leaf quotas created late over pods that were admitted/bound/left pending through the default group + the plugin's migrateDefaultQuotaGroupsPod + further attempts against the new quota + deletion/re-creation of empty leaf quotas, max raised/lowered (also exactly to usage and one below), min and weight changes, node add/remove/resize, events between check and reserve; requests drawn at headroom, headroom+1, headroom-1; distinct = (config, leaf depth, #dims, default group?, late-created quota?, non-preemptible?, verdict, cited check, boundary class, limit<max?, retry?); non-trivial = case with an accepted and a rejected attempt and at least one decision within one unit of a limit"},
 		func(c *kit.Case) {
 			r := c.R
 			w := &c03World{c: c, r: r, quotas: map[string]*c03Quota{}}
@@ -1207,7 +1414,20 @@ func TestVerifC03Admission(t *testing.T) {
 			w.memScale = kit.Pick(r, []int64{1, 1 << 20, 1 << 30})
 			w.defSmall = r.Pct(30)
 			minScale := !r.Pct(25)
+			w.lateMode = r.Pct(35)
 			w.genTree()
+			if w.lateMode {
+				// 1-2 leaf quotas of the planned tree do not exist at the start (at least one leaf does)
+				n := r.Range(1, 2)
+				for i := 0; i < n && len(w.leaves) >= 2; i++ {
+					name := kit.Pick(r, w.leaves)
+					w.quotas[name].exists = false
+					w.order = c03Remove(w.order, name)
+					w.leaves = c03Remove(w.leaves, name)
+					w.absent = append(w.absent, name)
+				}
+				c.Count("cases_with_late_quota", 1)
+			}
 			def := &c03Quota{name: extension.DefaultQuotaName, parent: extension.RootQuotaName, isDefault: true, depth: 1, allowLent: true,
 				dims: []corev1.ResourceName{corev1.ResourceCPU, corev1.ResourceMemory}, max: c03Vec{}, min: c03Vec{}, lowered: map[corev1.ResourceName]bool{}}
 			if w.defSmall {
@@ -1223,7 +1443,7 @@ func TestVerifC03Admission(t *testing.T) {
 				a.EnableMinQuotaScale = minScale
 				a.DefaultQuotaGroupMax = c03RL(def.max)
 			})
-			c.Op("config runtimeQuota=%v checkParent=%v minScale=%v defaultGroupMax=%s memScale=%d", w.runtimeOn, w.parentOn, minScale, c03Str(def.max), w.memScale)
+			c.Op("config runtimeQuota=%v checkParent=%v minScale=%v defaultGroupMax=%s memScale=%d lateQuotas=%v", w.runtimeOn, w.parentOn, minScale, c03Str(def.max), w.memScale, w.absent)
 			c.Count(fmt.Sprintf("cases_runtime_%v_parent_%v", w.runtimeOn, w.parentOn), 1)
 			for _, n := range w.order {
 				q := w.quotas[n]
@@ -1247,8 +1467,18 @@ func TestVerifC03Admission(t *testing.T) {
 
 			attempts := r.Range(50, 150)
 			done := 0
+			lateW, delW := 0, 0
+			if w.lateMode {
+				lateW, delW = 5, 2
+			}
 			for steps := 0; done < attempts && steps < 10*attempts; steps++ {
-				switch r.Weighted(55, 12, 5, 8, 3, 10, 7) {
+				if w.lateMode && len(w.absent) > 0 && done == attempts*2/3 {
+					// do not let a history end with pods still waiting for their quota
+					if live, _ := w.labelled(w.absent[0]); live > 0 {
+						w.lateCreate(w.quotas[w.absent[0]])
+					}
+				}
+				switch r.Weighted(55, 12, 5, 8, 3, 10, 7, lateW, delW) {
 				case 0: // scheduling attempt: a waiting pod is retried, or a new pod arrives
 					pend := w.inState(c03Pending)
 					var p *c03Pod
@@ -1303,6 +1533,22 @@ func TestVerifC03Admission(t *testing.T) {
 				case 6:
 					w.nodeChange()
 					w.checkAll("after node change")
+				case 7: // a quota is created late (or re-created), then the migration goroutine runs
+					if len(w.absent) > 0 {
+						q := w.quotas[kit.Pick(r, w.absent)]
+						// mostly once pods carrying its name went through the default group
+						if _, assigned := w.labelled(q.name); assigned > 0 || r.Pct(15) {
+							w.lateCreate(q)
+						}
+					} else if r.Pct(30) {
+						// nothing to create: the periodic migration still runs and must move nothing
+						w.pl.migrateDefaultQuotaGroupsPod()
+						c.Op("migrate-default-group-pods (nothing to move)")
+						c.Count("migration_runs_idle", 1)
+						w.checkAll("after idle migration run")
+					}
+				case 8:
+					w.deleteQuota()
 				}
 			}
 			if w.accepted > 0 && w.rejected > 0 && w.boundary > 0 {
